@@ -1,0 +1,31 @@
+//go:build verif
+
+// Round-trip lemmas (C01) for /verif/engine (govc): each function composes the real serialiser with the real
+// decoder; its contract (in contracts_verif.go) states what survives the round trip. Compiled only with -tags verif.
+
+package diam
+
+import "github.com/fiorix/go-diameter/v4/diam/dict"
+
+// lemmaHeaderRoundTrip: a header, serialised and decoded.
+func lemmaHeaderRoundTrip(h *Header) (*Header, error) {
+	return DecodeHeader(h.Serialize())
+}
+
+// lemmaHeaderReserialise: 20 wire bytes, decoded and serialised again.
+func lemmaHeaderReserialise(data []byte) []byte {
+	h, err := DecodeHeader(data)
+	if err != nil {
+		return nil
+	}
+	return h.Serialize()
+}
+
+// lemmaAVPRoundTrip: an AVP serialised into a buffer of exactly its length and decoded with a dictionary.
+func lemmaAVPRoundTrip(a *AVP, application uint32, dictionary *dict.Parser) (*AVP, error) {
+	b := make([]byte, a.Len())
+	if err := a.SerializeTo(b); err != nil {
+		return nil, err
+	}
+	return DecodeAVP(b, application, dictionary)
+}
